@@ -575,10 +575,23 @@ type progOp struct {
 	pick int // for close: index into the pool at run time
 }
 
-func genProg(r *rand.Rand, n int, nextH *int, rtCloseProb int) []progOp {
+func genProg(r *rand.Rand, n int, nextH *int, rtCloseProb int, hot bool) []progOp {
 	var p []progOp
 	for len(p) < n {
 		x := r.Intn(100)
+		if hot {
+			// maximum contention on one name: registerModule / deleteModule of the same map entry
+			switch {
+			case x < 55:
+				p = append(p, progOp{op: Op{Kind: "inst", H: *nextH, Name: 1, Pre: "none"}})
+				*nextH++
+			case x < 85:
+				p = append(p, progOp{op: Op{Kind: "close", Code: uint32(r.Intn(4))}, pick: r.Intn(1 << 20)})
+			default:
+				p = append(p, progOp{op: Op{Kind: "look", Name: 1}})
+			}
+			continue
+		}
 		switch {
 		case x < 36:
 			pre := "none"
@@ -619,9 +632,13 @@ func runConc(engine string, seed int64, threads, opsPer int, yield bool) (*world
 	if r.Intn(3) == 0 {
 		rtp = 60
 	}
+	hot := r.Intn(4) == 0
+	if hot {
+		rep.Count("conc-mode:hot-name")
+	}
 	progs := make([][]progOp, threads)
 	for t := range progs {
-		progs[t] = genProg(r, opsPer, &nextH, rtp)
+		progs[t] = genProg(r, opsPer, &nextH, rtp, hot)
 	}
 	// a few named modules exist before the threads start (sequential prefix by thread 0 = part of the history)
 	rec := &recorder{w: w}
@@ -803,7 +820,7 @@ func checkConc(w *world, c concCase, cfg Cfg, o *hx.Oracle, budget int, origin s
 		}
 		asis := ans[0]
 		if asis == "unknown" {
-			asis = try(cfg.AtomicClose, cfg.AtomicRt, budget*3)
+			asis = try(cfg.AtomicClose, cfg.AtomicRt, budget*2)
 		}
 		sig := "C10:non-linearizable-history"
 		defer func() {
@@ -950,10 +967,10 @@ func replay(path string, cfg Cfg) {
 		var cc concCase
 		if json.Unmarshal(in, &cc) == nil && len(cc.History) > 0 {
 			// re-validate the recorded history, then re-run its programs a few times
-			checkConc(nil, cc, cfg, orc, 600000, "replay(recorded)")
+			checkConc(nil, cc, cfg, orc, 300000, "replay(recorded)")
 			for k := 0; k < 20; k++ {
 				w, c := runConc(cc.Engine, cc.Seed, cc.Threads, opsPerThread(cc), cc.Yield && hooksAvailable)
-				checkConc(w, c, cfg, orc, 600000, "replay(re-run)")
+				checkConc(w, c, cfg, orc, 300000, "replay(re-run)")
 			}
 		} else if json.Unmarshal(in, &sc) == nil && len(sc.Ops) > 0 {
 			runSeq(sc.Engine, sc.Ops, cfg, orc)
@@ -1064,14 +1081,14 @@ func main() {
 	}
 	jobs := make(chan job, 64)
 	var wg sync.WaitGroup
-	for k := 0; k < 6; k++ {
+	for k := 0; k < 5; k++ {
 		wg.Add(1)
 		go func() {
 			defer wg.Done()
 			o := hx.StartOracle()
 			defer o.Close()
 			for j := range jobs {
-				checkConc(j.w, j.c, cfg, o, 150000, "random")
+				checkConc(j.w, j.c, cfg, o, 100000, "random")
 			}
 			orcMu.Lock()
 			extraOracleOps += o.N
